@@ -49,8 +49,10 @@ Changed(old, new) == {g \in Loaded(old) \cap Loaded(new) : old[g] # new[g]}
 (* the event as History values *)
 PartKey(e, p) == IF e.op.k = "Refine" THEN CandKey(p.g) ELSE SingleKey(p.g, e.op.a)
 Part(e, p) == [of |-> PartKey(e, p), tag |-> p.res, d |-> 0, e |-> 0, x |-> 0]
-Res(e) == [of |-> KeyOf(e.op), tag |-> e.res, d |-> <<>>, e |-> <<>>, x |-> 0,
-           per |-> [i \in DOMAIN e.per |-> Part(e, e.per[i])]]
+Res(e) == IF e.op.k = "Genotype"           \* the same shape as the part of a multi-gene run (History!SingleOf)
+          THEN SingleOf([of |-> KeyOf(e.op), tag |-> e.res, d |-> 0, e |-> 0, x |-> 0])
+          ELSE [of |-> KeyOf(e.op), tag |-> e.res, d |-> <<>>, e |-> <<>>, x |-> 0,
+                per |-> [i \in DOMAIN e.per |-> Part(e, e.per[i])]]
 AuxOf(e, key) ==
     LET ps == {i \in DOMAIN e.per : PartKey(e, e.per[i]) = key}
     IN IF ps = {} \/ key = KeyOf(e.op)
